@@ -71,10 +71,9 @@ import PyYetiVerif.Props.C16LabelsNest
 #print axioms PyYetiVerif.C16.expand_missing_rows_neutral
 #print axioms PyYetiVerif.C16.form_extreme_event_order_values_independent
 #print axioms PyYetiVerif.C16.form_extreme_refuses_repeated_labels
-#print axioms PyYetiVerif.C16.form_extreme_needs_percase_columns
-#print axioms PyYetiVerif.C16.abscissa_none_first_counterexample
+#print axioms PyYetiVerif.C16.form_extreme_accepts_differing_rows
+#print axioms PyYetiVerif.C16.abscissa_of_governing_event_mixed
 #print axioms PyYetiVerif.C16.cases_label_matches_column
 #print axioms PyYetiVerif.C16.split_pairs_cases_with_columns
-#print axioms PyYetiVerif.C16.uf_reds_none_entries_counterexample
-#print axioms PyYetiVerif.C16.uf_reds_none_entries_documented_partial
+#print axioms PyYetiVerif.C16.uf_reds_none_entries_documented
 #print axioms PyYetiVerif.C16.form_extreme_nested_by_label_values
